@@ -1068,6 +1068,279 @@ var vfC17Spec = vlib.Spec[vfC17Case]{
 	Gen:  vfGenC17, Run: vfC17Run,
 }
 
-func TestVerif_C17(t *testing.T) { vlib.Both(t, vfC17Spec) }
+
+// ---- stalled peer ------------------------------------------------------------------------------------------
+// One connection to the pool stays open but is never read (hung process, stalled link; the pool drops it only after
+// the 60 s keepalive timeout). Tasks keep arriving. "No permanent blocking of other tasks": every AddTask, every
+// Subscribe and every collector stop still returns and the healthy collectors still receive every task.
+
+type vfStallCase struct {
+	NHealthy  int  `json:"nhealthy"`  // relays dialled into the pool, one recording collector behind each
+	NDirect   int  `json:"ndirect"`   // recording collectors subscribed to the superior directly
+	HungAt    int  `json:"hungAt"`    // index of the task before which the hung peer connects
+	Tasks     int  `json:"tasks"`     // broadcast quality tasks (each removed when the next one was added)
+	PayloadKB int  `json:"payloadKB"` // size of each request (ParentTarget), below the 2 MiB receive limit
+	LateAt    int  `json:"lateAt"`    // a further direct collector subscribes before this task (-1: none)
+	LeaveAt   int  `json:"leaveAt"`   // healthy relay 0 is stopped before this task (-1: none)
+	Targeted  int  `json:"targeted"`  // every n-th task is followed by a targeted proof task to a direct collector (0: none)
+	SmallRcv  bool `json:"smallRcv"`  // the hung peer shrinks its receive buffer
+}
+
+type vfSink struct {
+	id uuid.UUID
+	mu sync.Mutex
+	in map[uuid.UUID]int
+}
+
+func newVfSink() *vfSink { return &vfSink{id: uuid.New(), in: map[uuid.UUID]int{}} }
+func (s *vfSink) ID() uuid.UUID { return s.id }
+func (s *vfSink) add(m protocol.Message) error {
+	s.mu.Lock()
+	s.in[m.ID()]++
+	s.mu.Unlock()
+	return nil
+}
+func (s *vfSink) RequestQualities(_ context.Context, r *protocol.RequestQualities) error { return s.add(r) }
+func (s *vfSink) RequestProof(_ context.Context, r *protocol.RequestProof) error         { return s.add(r) }
+func (s *vfSink) RequestSignature(_ context.Context, r *protocol.RequestSignature) error { return s.add(r) }
+func (s *vfSink) count(id uuid.UUID) int {
+	s.mu.Lock()
+	defer s.mu.Unlock()
+	return s.in[id]
+}
+
+const vfStallBound = 30 * time.Second // well below the 60 s after which the pool drops the silent peer on its own
+
+// vfReturns runs f in a goroutine; a call that has not returned after vfStallBound is a verdict with the stacks.
+func vfReturns(sig, what string, f func()) *vlib.Failure {
+	done := make(chan struct{})
+	go func() { defer close(done); f() }()
+	select {
+	case <-done:
+		return nil
+	case <-time.After(vfStallBound):
+		return vfBlockedFractal(sig, fmt.Sprintf("%s did not return within %v while one peer of the pool does not read its connection", what, vfStallBound))
+	}
+}
+
+func vfStallRun(c vfStallCase, ctx *vlib.Ctx) *vlib.Failure {
+	vfSetup()
+	bg, cancelAll := context.WithCancel(context.Background())
+	defer cancelAll()
+	ls := NewLocalSuperior()
+	defer ls.Release()
+	pool, poolCancel, err := NewCollectorPool(bg, ls, CollectorPoolListenAddress("127.0.0.1:0"))
+	if err != nil {
+		return vlib.Failf("harness:pool", "%v", err)
+	}
+	defer poolCancel()
+	addr := pool.listener.Addr().String()
+	subscribed := func() int {
+		ls.l.RLock()
+		defer ls.l.RUnlock()
+		return len(ls.collectors)
+	}
+	waitSubs := func(n int) bool {
+		for i := 0; i < 5000; i++ {
+			if subscribed() >= n {
+				return true
+			}
+			time.Sleep(time.Millisecond)
+		}
+		return false
+	}
+	type node struct {
+		sink   *vfSink
+		cancel context.CancelFunc
+		gone   bool
+	}
+	var relays []*node
+	for i := 0; i < c.NHealthy; i++ {
+		prs, cancel, err := NewPersistentRemoteSuperior(bg, connection.DialAddress(addr))
+		if err != nil {
+			return vlib.Failf("harness:relay", "%v", err)
+		}
+		defer cancel()
+		n := &node{sink: newVfSink(), cancel: cancel}
+		prs.Subscribe(bg, n.sink)
+		relays = append(relays, n)
+	}
+	var direct []*vfSink
+	for i := 0; i < c.NDirect; i++ {
+		s := newVfSink()
+		ls.Subscribe(bg, s)
+		direct = append(direct, s)
+	}
+	want := c.NHealthy + c.NDirect
+	if !waitSubs(want) {
+		return vlib.Failf("harness:stall-subscribe", "want %d collectors at the superior, have %d", want, subscribed())
+	}
+	var hung net.Conn
+	defer func() {
+		if hung != nil {
+			hung.Close()
+		}
+	}()
+	target := new(big.Int).Lsh(big.NewInt(1), uint(8*1024*c.PayloadKB))
+	var ids, tids []uuid.UUID
+	var tsinks []*vfSink
+	idSince := map[*vfSink]int{} // first task index a sink must see
+	for _, n := range relays {
+		idSince[n.sink] = 0
+	}
+	for _, s := range direct {
+		idSince[s] = 0
+	}
+	// every broadcast reached every healthy collector that was connected when it was added, exactly once
+	check := func(s *vfSink, who string, from, to int) *vlib.Failure {
+		deadline := time.Now().Add(2 * vfStallBound)
+		for i := from; i < to; i++ {
+			for s.count(ids[i]) == 0 && time.Now().Before(deadline) {
+				time.Sleep(5 * time.Millisecond)
+			}
+			if n := s.count(ids[i]); n == 0 {
+				return vfBlockedFractal("stall:healthy-collector-starved", fmt.Sprintf("%s did not receive broadcast task #%d of %d within %v after the last AddTask returned (hung peer connected before task #%d)", who, i+1, c.Tasks, 2*vfStallBound, c.HungAt+1))
+			} else if n > 1 {
+				return vlib.Failf("stall:duplicate-delivery", "%s received broadcast task #%d %d times", who, i+1, n)
+			}
+		}
+		return nil
+	}
+	for i := 0; i < c.Tasks; i++ {
+		if i == c.HungAt {
+			before := map[uuid.UUID]bool{}
+			ls.l.RLock()
+			for id := range ls.collectors {
+				before[id] = true
+			}
+			ls.l.RUnlock()
+			hung, err = net.Dial("tcp", addr)
+			if err != nil {
+				return vlib.Failf("harness:hung-dial", "%v", err)
+			}
+			if tc, ok := hung.(*net.TCPConn); ok && c.SmallRcv {
+				tc.SetReadBuffer(4096)
+			}
+			seen := false
+			for k := 0; k < 10000 && !seen; k++ {
+				ls.l.RLock()
+				for id := range ls.collectors {
+					if !before[id] {
+						seen = true
+					}
+				}
+				ls.l.RUnlock()
+				if !seen {
+					time.Sleep(time.Millisecond)
+				}
+			}
+			if !seen {
+				return vlib.Failf("harness:hung-subscribe", "the pool did not subscribe the silent peer (have %d collectors)", subscribed())
+			}
+			ctx.Label("hung-peer-connected")
+		}
+		if i == c.LateAt {
+			s := newVfSink()
+			if f := vfReturns("stall:subscribe-blocked", fmt.Sprintf("Subscribe of a further collector before task #%d", i), func() { ls.Subscribe(bg, s) }); f != nil {
+				return f
+			}
+			direct = append(direct, s)
+			idSince[s] = i
+			ctx.Label("late-subscriber")
+		}
+		if i == c.LeaveAt && len(relays) > 0 && !relays[0].gone {
+			n := relays[0]
+			// what was broadcast so far must have arrived before the relay goes: later it cannot be judged
+			if f := check(n.sink, "the collector behind healthy relay 0 (about to leave)", 0, i); f != nil {
+				return f
+			}
+			if f := vfReturns("stall:stop-blocked", fmt.Sprintf("stopping a healthy relay before task #%d", i), func() { n.cancel() }); f != nil {
+				return f
+			}
+			n.gone = true
+			ctx.Label("healthy-relay-left")
+		}
+		req := &protocol.RequestQualities{TaskID: uuid.New(), ParentTarget: target, ParentSlot: 100, Height: uint64(i + 1)}
+		ids = append(ids, req.TaskID)
+		if f := vfReturns("stall:addtask-blocked", fmt.Sprintf("AddTask #%d of %d (broadcast quality task, %d KiB)", i+1, c.Tasks, c.PayloadKB), func() { ls.AddTask(bg, uuid.Nil, req) }); f != nil {
+			return f
+		}
+		if i > 0 {
+			prev := ids[i-1]
+			if f := vfReturns("stall:removetask-blocked", fmt.Sprintf("RemoveTask of task #%d", i), func() { ls.RemoveTask(prev) }); f != nil {
+				return f
+			}
+		}
+		if c.Targeted > 0 && len(direct) > 0 && i%c.Targeted == c.Targeted-1 {
+			s := direct[i%len(direct)]
+			preq := &protocol.RequestProof{TaskID: uuid.New(), SpaceID: "x", Challenge: pocutil.Hash{byte(i)}, Index: uint32(i)}
+			if f := vfReturns("stall:targeted-blocked", fmt.Sprintf("AddTask (targeted proof task to a healthy direct collector) after task #%d", i+1), func() { ls.AddTask(bg, s.id, preq) }); f != nil {
+				return f
+			}
+			if got := s.count(preq.TaskID); got != 1 {
+				return vlib.Failf("stall:targeted-not-delivered", "targeted task after task #%d reached its healthy target %d times (Send is synchronous for a local collector)", i+1, got)
+			}
+			ls.RemoveTask(preq.TaskID)
+			tids = append(tids, preq.TaskID)
+			tsinks = append(tsinks, s)
+		}
+	}
+	for k, n := range relays {
+		if n.gone {
+			continue // judged right before it left
+		}
+		if f := check(n.sink, fmt.Sprintf("the collector behind healthy relay %d", k), 0, c.Tasks); f != nil {
+			return f
+		}
+	}
+	for k, s := range direct {
+		if f := check(s, fmt.Sprintf("direct collector %d", k), idSince[s], c.Tasks); f != nil {
+			return f
+		}
+	}
+	for k, id := range tids {
+		for _, s := range direct {
+			if s != tsinks[k] && s.count(id) != 0 {
+				return vlib.Failf("stall:targeted-leaked", "targeted task %d reached a collector that is not its target", k)
+			}
+		}
+		for _, n := range relays {
+			if n.sink.count(id) != 0 {
+				return vlib.Failf("stall:targeted-leaked", "targeted task %d reached a collector behind a relay", k)
+			}
+		}
+	}
+	if f := vfReturns("stall:pool-stop-blocked", "stopping the pool", func() { poolCancel() }); f != nil {
+		return f
+	}
+	ctx.LabelN("tasks-after-hung", c.Tasks-c.HungAt)
+	if c.Tasks-c.HungAt >= 40 {
+		ctx.NonTrivial()
+	}
+	return nil
+}
+
+var vfStallSpec = vlib.Spec[vfStallCase]{
+	Prop: "C17", Name: "stalled-peer", NoShrink: true, Scale: 0.17, Min: 1,
+	Rule: "a LocalSuperior with a CollectorPool on 127.0.0.1:0, 1-3 healthy relays (PersistentRemoteSuperior, one recording collector each), 0-2 recording collectors subscribed directly, and one raw TCP peer that connects before a generated task and never reads; 45-60 broadcast quality tasks of 400-700 KiB (each removed when the next is added), every n-th followed by a targeted proof task to a healthy direct collector, a late direct subscriber and a healthy relay leaving at generated tasks; oracles: AddTask, RemoveTask, Subscribe, relay stop and pool stop return (30 s bound, half the keepalive timeout after which the pool drops the silent peer itself; verdict carries the fractal goroutine stacks), every broadcast reaches every healthy collector connected at the time exactly once, targeted tasks reach the target only; non-trivial = >=40 tasks after the silent peer connected (more than its queues and socket buffers hold); distinct = distinct case JSON",
+	Gen: func(t *rapid.T) vfStallCase {
+		c := vfStallCase{NHealthy: rapid.IntRange(1, 3).Draw(t, "nhealthy"), NDirect: rapid.IntRange(0, 2).Draw(t, "ndirect"), HungAt: rapid.IntRange(0, 5).Draw(t, "hungAt"),
+			Tasks: rapid.IntRange(45, 60).Draw(t, "tasks"), PayloadKB: rapid.IntRange(400, 700).Draw(t, "payloadKB"), LateAt: -1, LeaveAt: -1,
+			Targeted: rapid.SampledFrom([]int{0, 3, 7}).Draw(t, "targeted"), SmallRcv: rapid.IntRange(0, 3).Draw(t, "smallRcv") != 0}
+		if rapid.Bool().Draw(t, "late") {
+			c.LateAt = rapid.IntRange(1, c.Tasks-1).Draw(t, "lateAt")
+		}
+		if c.NHealthy >= 2 && rapid.Bool().Draw(t, "leave") {
+			c.LeaveAt = rapid.IntRange(2, c.Tasks-1).Draw(t, "leaveAt")
+		}
+		return c
+	},
+	Run: vfStallRun,
+}
+
+func TestVerif_C17(t *testing.T) {
+	t.Run("topology", func(t *testing.T) { vlib.Both(t, vfC17Spec) })
+	t.Run("stalled-peer", func(t *testing.T) { vlib.Both(t, vfStallSpec) })
+}
 
 func bigOne() *big.Int { return big.NewInt(1) }
